@@ -90,7 +90,7 @@ def generate(h, outdir):
     chunks = ['/* generated on every run by /verif/vp from %s; do not edit */\n' % extract.REPO,
               '#include "mp_shim.h"\n']
     for p in h.parts:
-        if isinstance(p, extract.Fn):
+        if isinstance(p, (extract.Fn, extract.Braced)):
             chunks.append(p.render())
             infos.append(p.info)
         elif isinstance(p, tuple) and p[0] == 'enum':
@@ -168,7 +168,7 @@ def run_harness(h, outdir, tier):
         res['status'] = 'undecided'
         res['reason'] = 'goto-instrument failed: ' + (out + err)[-1500:]
         return res
-    cb = ['cbmc', gb2, '--json-ui', '--trace', '--conversion-check', '--no-malloc-may-fail']
+    cb = ['cbmc', gb2, '--json-ui', '--conversion-check', '--no-malloc-may-fail']
     if h.bounded:
         cb += ['--unwind', str(h.bounded['unwind']), '--unwinding-assertions']
     else:
@@ -186,57 +186,48 @@ def run_harness(h, outdir, tier):
         cb += ['--z3']
     cb += h.flags
     res['cmd'] = ' '.join(cmd) + ' && ' + ' '.join(gi) + ' && ' + ' '.join(cb)
-    jpath = os.path.join(outdir, h.name + '.json')
-    rc, out, err, secs = sh(cb, h.timeout, stdout_path=jpath)
+    cb_text = [x for x in cb if x != '--json-ui']
+    jpath = os.path.join(outdir, h.name + '.log')
+    rc, out, err, secs = sh(cb_text, h.timeout, stdout_path=jpath)
     res['seconds'] = round(time.time() - t0, 2)
     res['solver_seconds'] = round(secs, 2)
+    res['log'] = jpath
     if rc == 124:
         res['reason'] = 'solver timeout (%ds)' % h.timeout
         return res
     try:
-        with open(jpath) as f:
-            data = json.load(f)
-    except Exception as e:
-        res['reason'] = 'cbmc output not parseable (rc=%s): %s %s' % (rc, e, err[-500:])
+        with open(jpath, errors='replace') as f:
+            text = f.read()
+    except OSError as e:
+        res['reason'] = 'cbmc output missing: %s' % e
         return res
-    results = None
-    msgs = []
-    for x in data:
-        if 'result' in x:
-            results = x['result']
-        elif 'messageText' in x:
-            msgs.append((x.get('messageType', ''), x['messageText']))
-    warn = [m for t, m in msgs if 'ignoring' in m]
-    nobody = [m for t, m in msgs if 'no body for function' in m]
-    errors = [m for t, m in msgs if t == 'ERROR']
+    text_all = text + '\n' + err
+    warn = [l for l in text_all.splitlines() if 'ignoring' in l]
+    nobody = [l for l in text_all.splitlines() if 'no body for function' in l]
     res['warnings'] = warn + nobody
-    if results is None:
-        res['reason'] = 'cbmc produced no result (rc=%s): %s' % (rc, '; '.join(errors)[-1500:] or err[-500:])
+    if 'VERIFICATION SUCCESSFUL' not in text and 'VERIFICATION FAILED' not in text:
+        tail = [l for l in text_all.splitlines() if l.strip()][-12:]
+        res['reason'] = 'cbmc produced no verdict (rc=%s): %s' % (rc, ' | '.join(tail)[-1500:])
         return res
     n_loop_step = 0
     obs = []
-    for r in results:
-        name = r.get('property', '')
-        desc = r.get('description', '')
-        st = r.get('status', '')
-        kind, counted = classify(name, desc)
-        loc = r.get('sourceLocation', {})
-        ob = {'name': name, 'description': desc, 'status': st, 'kind': kind, 'counted': counted,
-              'file': loc.get('file', ''), 'line': loc.get('line', ''), 'function': loc.get('function', '')}
-        if '.loop_invariant_step' in name:
-            n_loop_step += 1
-        if st == 'FAILURE' and 'trace' in r:
-            vals = {}
-            for s in r['trace']:
-                if s.get('stepType') == 'assignment':
-                    lhs = s.get('lhs', '')
-                    if lhs.startswith('vp_in_'):
-                        v = s.get('value', {})
-                        vals[lhs] = v.get('data', v.get('name', None)) if 'data' in v else _flatten(v)
-                        if 'binary' in v:
-                            vals[lhs + '#bin'] = v['binary']
-            ob['inputs'] = vals
-        obs.append(ob)
+    cur_file, cur_fn = '', ''
+    hdr = re.compile(r'^(\S.*) function (\S+)$')
+    line_re = re.compile(r'^\[([^\]]+)\] (?:line (\d+) )?(.*): (SUCCESS|FAILURE|UNKNOWN|ERROR)$')
+    for ln in text.splitlines():
+        m = line_re.match(ln)
+        if m:
+            name, lno, desc, st = m.group(1), m.group(2) or '', m.group(3), m.group(4)
+            kind, counted = classify(name, desc)
+            ob = {'name': name, 'description': desc, 'status': st, 'kind': kind, 'counted': counted,
+                  'file': cur_file, 'line': lno, 'function': cur_fn}
+            if '.loop_invariant_step' in name:
+                n_loop_step += 1
+            obs.append(ob)
+            continue
+        m = hdr.match(ln)
+        if m and not ln.startswith('['):
+            cur_file, cur_fn = m.group(1), m.group(2)
     res['obligations'] = obs
     res['n_loop_step'] = n_loop_step
     # verdict
@@ -275,6 +266,28 @@ def run_harness(h, outdir, tier):
         return res
     failed = [o for o in counted if o['status'] == 'FAILURE']
     res['status'] = 'failed' if failed else 'proved'
+    if failed:
+        # second run for a counterexample trace of the leading failed obligation (best effort: trace
+        # generation may crash on havoc_slice objects; the verdict does not depend on it)
+        lead = failed[0]
+        tpath = os.path.join(outdir, h.name + '.trace.json')
+        rc2, _, _, _ = sh(cb_text + ['--json-ui', '--trace', '--property', lead['name']], h.timeout, stdout_path=tpath)
+        try:
+            with open(tpath) as f:
+                tdata = json.load(f)
+            for x in tdata:
+                for r in x.get('result', []) if isinstance(x, dict) else []:
+                    if r.get('property') == lead['name'] and 'trace' in r:
+                        vals = {}
+                        for st_ in r['trace']:
+                            if st_.get('stepType') == 'assignment':
+                                lhs = st_.get('lhs', '')
+                                if lhs.startswith('vp_in_'):
+                                    v = st_.get('value', {})
+                                    vals[lhs] = v.get('data') if 'data' in v else _flatten(v)
+                        lead['inputs'] = vals
+        except Exception:
+            pass
     return res
 
 
@@ -426,7 +439,7 @@ def run_property(prop, harnesses, tier, seed, meta):
                        'verifier_inputs': inputs, 'replayed_on_real_code': reproduced,
                        'replay_cmd': rcmd, 'replay_output': rtext,
                        'verifier_cmd': h.result.get('cmd', ''),
-                       'verifier_output': os.path.join(outdir, hname + '.json')}, f, indent=1)
+                       'verifier_output': os.path.join(outdir, hname + '.log')}, f, indent=1)
         vio_files.append(rp)
         suffix = '' if reproduced else ' no-failing-input-found'
         lines.append('VIOLATION property=%s replay=%s%s' % (prop, rp, suffix))
